@@ -8,3 +8,5 @@ import RedkaModel.Props.C13api
 #print axioms Redka.Props.C13api.every_dispatched_name_is_documented_partial
 #print axioms Redka.Props.C13api.every_dispatch_row_has_source
 #print axioms Redka.Props.C13api.every_command_type_has_a_run
+#print axioms Redka.Props.C13api.wire_command_is_its_api_call
+#print axioms Redka.Props.C13api.api_call_is_a_source_call
